@@ -7,7 +7,7 @@ def run(ctx):
     for inv in d["static"]:
         if inv in ("RoundTrip", "Unambiguous"):
             ctx.violation("plan:" + inv, "TLC: the extracted field plan violates %s of Plan.tla (an element sequence that cannot be decoded back unambiguously)" % inv, {"tlc": d["tlc_out"][-1500:]})
-    pc.report(ctx, d, {"ttlv"}, {"encode-panic", "not-well-formed", "elements-differ", "decode-error", "reencoding-differs"})
+    pc.report(ctx, d, {"ttlv"}, {"encode-panic", "not-well-formed", "elements-differ", "decode-error", "reencoding-differs", "value-changed-by-roundtrip"})
     for x in d["messages"]:
         for p in x["problems"]:
             if p.startswith("ttlv:") or p.startswith("panic:"):
